@@ -991,7 +991,9 @@ func runExploreSel(propID, group string, scenarios []*Scenario, bound int, tier 
 	}
 	rep.Coverage["schedules_per_preemption_count_"+group] = pb
 	rep.Coverage["terminals_"+group] = total.Terminals
-	if old, ok := rep.Coverage["exhaustive"].(bool); ok {
+	if bound < 0 && unboundedIsExtra {
+		rep.Coverage["unbounded_pass_complete_"+group] = !total.TimedOut
+	} else if old, ok := rep.Coverage["exhaustive"].(bool); ok {
 		rep.Coverage["exhaustive"] = old && !total.TimedOut
 	} else {
 		rep.Coverage["exhaustive"] = !total.TimedOut
